@@ -49,3 +49,16 @@ Theorem C02_value_only : forall num den num' den' n, (0 < den)%Z -> (0 < den')%Z
   ctor KCube num den n = ctor KCube num' den' n.
 Proof. exact (ValueOnly.ctor_value_only KCube). Qed.
 Print Assumptions C02_value_only.
+
+(* checking the full length is as good as checking every prefix (CheckLast.v): the truncation property of the
+   longest prefix implies that of every shorter one, so one comparison of big numbers decides a digit string of any
+   length; the last-only checker is sound for the property and accepts whatever the per-prefix checker accepts *)
+Require CheckLast.
+Theorem C02_last_prefix_suffices : forall num den e ds, (0 < den)%Z -> Forall (fun d => (0 <= d <= 9)%Z) ds ->
+  trunc_ok KCube num den e (length ds) (val ds) ->
+  forall j, (j <= length ds)%nat -> trunc_ok KCube num den e j (val (firstn j ds)).
+Proof. exact (CheckLast.trunc_all_prefixes KCube). Qed.
+Theorem C02_checker_last_sound : forall num den n e ds ended, (0 < den)%Z ->
+  CheckLast.ctor_check_last KCube num den n e ds ended = true -> ctor_spec KCube num den n e ds ended.
+Proof. exact (CheckLast.ctor_check_last_sound KCube). Qed.
+Print Assumptions C02_checker_last_sound.
